@@ -77,14 +77,14 @@ def build_sim(S, cfg):
         cls = mod.vars["UnboundedNavierStokesFlowSimulator2D"]
         kw = dict(grid_size=S.grid_shape(2), x_range=sym("x_range"), kinematic_viscosity=sym("nu"), real_t=S.real_t,
                   cfl=sym("cfl"), with_forcing=cfg["with_forcing"], with_free_stream_flow=cfg["with_free_stream_flow"],
-                  flow_density=sym("rho"), penalty_zone_width=cfg["penalty_zone_width"], num_threads=sym("num_threads"))
+                  flow_density=sym("rho"), penalty_zone_width=cfg["penalty_zone_width"], num_threads=sym("num_threads"), time=sym("t0"))
         dim = 2
     elif kind == "3d":
         cls = mod.vars["UnboundedNavierStokesFlowSimulator3D"]
         kw = dict(grid_size=S.grid_shape(3), x_range=sym("x_range"), kinematic_viscosity=sym("nu"), real_t=S.real_t,
                   cfl=sym("cfl"), with_forcing=cfg["with_forcing"], with_free_stream_flow=cfg["with_free_stream_flow"],
                   flow_density=sym("rho"), penalty_zone_width=cfg["penalty_zone_width"], num_threads=sym("num_threads"),
-                  poisson_solver_type=cfg["poisson_solver_type"])
+                  poisson_solver_type=cfg["poisson_solver_type"], time=sym("t0"))
         if cfg.get("filter") is not None:
             kw["filter_vorticity"] = True
             kw["filter_setting_dict"] = {"order": cfg["filter"][1], "type": cfg["filter"][0]}
@@ -93,7 +93,7 @@ def build_sim(S, cfg):
         cls = mod.vars["PassiveTransportFlowSimulator"]
         dim = cfg["grid_dim"]
         kw = dict(kinematic_viscosity=sym("nu"), grid_dim=dim, grid_size=S.grid_shape(dim), x_range=sym("x_range"),
-                  cfl=sym("cfl"), real_t=S.real_t, num_threads=sym("num_threads"), field_type=cfg["field_type"])
+                  cfl=sym("cfl"), real_t=S.real_t, num_threads=sym("num_threads"), field_type=cfg["field_type"], time=sym("t0"))
     n0 = len(S.I.trace)
     p0 = len(S.I.problems)
     run = SimRun()
